@@ -50,6 +50,9 @@ structure NodeF (σ : Type) where
   /-- keywords present with an EMPTY array / object value: Go decodes them to empty non-nil slices / maps,
       which `cmp.Equal` distinguishes from the nil of an absent keyword -/
   emptyKw : List String := []
+  /-- the enum values of this node have been rewritten in place from float64 to int (`generateEnumType` on a
+      `type: integer` enum): `cmp.Equal` then tells it from every freshly parsed node -/
+  enumCoerced : Bool := false
 
 inductive Schema where
   | mk (n : NodeF Schema)
